@@ -42,12 +42,13 @@ def steps(draw):
     step = {'r': r}
     if r == 'dict':
         if draw(st.integers(0, 3)) == 0:
-            step['kv'] = draw(st.sampled_from([{'a': 1, 'b': 2}, {'a': 1, 'b': 1}, {'b': 3, 'c': 3}, {}]))
+            step['kv'] = draw(st.sampled_from([{'a': 1, 'b': 2}, {'a': 1, 'b': 1}, {'b': 3, 'c': 3}, {}, {'': 0, 'a': 0}]))
         else:
-            step['k'] = draw(st.sampled_from(['a', 'a', 'a', 'b']))
-            step['v'] = draw(st.integers(1, 3))
+            # (falsy keys and values are legal results: only None means "nothing")
+            step['k'] = draw(st.sampled_from(['a', 'a', 'a', 'b', '']))
+            step['v'] = draw(st.sampled_from([1, 2, 3, 0, '']))      # (not False next to 0: they are equal values in Python, the snapshots compare by repr)
     elif r == 'scalar':
-        step['v'] = draw(st.integers(1, 3))
+        step['v'] = draw(st.sampled_from([1, 2, 3, 0, '']))
     elif r == 'temp':
         step['delay'] = draw(st.sampled_from([0, 2.0, 1000.0]))
     if draw(st.integers(0, 5)) == 0:
